@@ -642,11 +642,11 @@ def main():
                        'timeouts unless the input can never run out of admissible swaps (one exists and the mask covers no cell of the network): then, and for every other '
                        'routine, the call is re-tried with ten times the budget and a second timeout is the violation does-not-return']
     # T-gen: number_of_components / get_components (the connectedness pre-check of the undirected _connected routines) re-extracted from /repo's current source
-    ck.cov['cores'] = cores.generate(families=['comp'])
+    ck.cov['cores'] = cores.generate(families=['comp', 'pinrew'])
     for p_ in ck.cov['cores']['problems']:
         ck.corr_break('core extractor (translate/cores.py)', p_)
     ok = ck.lean_gate(['BctVerif.Props.C11'], extra_modules=['BctVerif.Model.Rewire', 'BctVerif.Model.RewirePre'])
-    ck.lean_gate([], gen_modules=['BctVerif.Gen.CoresComp'])
+    ck.lean_gate([], gen_modules=['BctVerif.Gen.CoresComp', 'BctVerif.Gen.CoresPinRewire'])
     if ck.tier == 'thorough' and ok:
         ck.leanchecker(['BctVerif.Props.C11', 'BctVerif.Model.Rewire', 'BctVerif.Model.RewirePre'])
     if ck.replay:
